@@ -597,18 +597,16 @@ func (c *Ctx) principalField(p *core.Path, ret ssa.Value, name string) ssa.Value
 	if !ok {
 		return nil
 	}
+	// the last store into that field among the instructions executed on the path — those of helpers spliced in
+	// included (the principal may be built by a constructor: principalOf(out), accepted(mountPoint))
 	var found ssa.Value
-	onPath := map[*ssa.BasicBlock]bool{}
-	for _, b := range p.Blocks {
-		onPath[b] = true
-	}
-	for _, r := range *al.Referrers() {
-		if fa, ok := r.(*ssa.FieldAddr); ok && fieldNameOf(fa.X.Type(), fa.Field) == name {
-			for _, rr := range *fa.Referrers() {
-				if s, ok := rr.(*ssa.Store); ok && onPath[s.Block()] {
-					found = s.Val
-				}
-			}
+	for _, pi := range p.Instrs() {
+		st, ok := pi.In.(*ssa.Store)
+		if !ok {
+			continue
+		}
+		if fa, ok := st.Addr.(*ssa.FieldAddr); ok && fa.X == ssa.Value(al) && fieldNameOf(fa.X.Type(), fa.Field) == name {
+			found = st.Val
 		}
 	}
 	return found
@@ -651,6 +649,11 @@ func recordElems(p *core.Path, v ssa.Value) []*ssa.IndexAddr {
 			}
 		case *ssa.Phi:
 			if r := p.Resolve(x); r != ssa.Value(x) {
+				walk(r, d+1)
+			}
+		case *ssa.Extract, *ssa.Call:
+			// the record handed back by a look-up helper spliced into the path
+			if r := p.Resolve(x); r != x {
 				walk(r, d+1)
 			}
 		}
@@ -1256,10 +1259,33 @@ func (c *Ctx) ruleSessionIDNeverEmpty(id string, authPkg string) {
 			}
 			return false
 		}
-		if cv, ok := core.Strip(v).(*ssa.Call); ok && isGenerator(cv) {
-			return true // judged before the generator's body is spliced in
+		// resolve step by step, so that a call of the generator is recognised before its spliced-in body replaces it
+		for i := 0; i < 16; i++ {
+			v = core.Strip(v)
+			if cv, ok := v.(*ssa.Call); ok && isGenerator(cv) {
+				return true
+			}
+			var nv ssa.Value
+			switch x := v.(type) {
+			case *ssa.Phi:
+				nv = p.Phi[x]
+			case *ssa.Parameter:
+				nv = p.Params[x]
+			case *ssa.Extract:
+				if rs, ok := p.Rets[x.Tuple]; ok && x.Index < len(rs) {
+					nv = rs[x.Index]
+				}
+			case *ssa.Call:
+				if rs, ok := p.Rets[x]; ok && len(rs) == 1 {
+					nv = rs[0]
+				}
+			}
+			if nv == nil {
+				break
+			}
+			v = nv
 		}
-		v = core.Strip(p.Resolve(core.Strip(v)))
+		v = core.Strip(v)
 		switch x := v.(type) {
 		case *ssa.Const:
 			return x.Value != nil && x.Value.Kind() == constant.String && constant.StringVal(x.Value) != ""
